@@ -136,4 +136,20 @@ Definition gen_edge_knots (categorical : bool) (col : list T) : option (T * T) :
       let lo := lmin a rest in let hi := lmax a rest in
       Some (if categorical then (lo - half, hi + half) else (lo, hi))
   end.
+
+(* SplineTerm.__init__ / SplineTerm.compile (after /repo e1fa477).  State of a term = its edge_knots_ attribute
+   (None = attribute absent); `given` = _edge_knots_given = knots were passed to the constructor (then the initial state
+   is Some of them).  compile(X):
+       if not hasattr(self, 'edge_knots_') or not self._edge_knots_given: self.edge_knots_ = gen_edge_knots(X[:, f], dtype)
+   The column is non-empty (check_X requires at least one sample); gen_edge_knots of an empty column is None. *)
+Definition spline_init (user : option (T * T)) : bool * option (T * T) :=
+  (match user with Some _ => true | None => false end, user).
+Definition spline_compile (given categorical : bool) (st : option (T * T)) (col : list T) : option (T * T) :=
+  match st with
+  | Some e => if given then Some e else gen_edge_knots categorical col
+  | None => gen_edge_knots categorical col
+  end.
+(* a history of compiles (refits, shared term objects): columns in call order *)
+Definition spline_compile_history (user : option (T * T)) (categorical : bool) (cols : list (list T)) : option (T * T) :=
+  fold_left (spline_compile (fst (spline_init user)) categorical) cols (snd (spline_init user)).
 End BS.
